@@ -109,4 +109,60 @@ UNIT2 = {
                     "table_.find enters by a ghost contract: the answer for the key of the ghost entry is g_found, any answer for other keys (find itself: unit theta_find of C01); the policy is a counted call",
                     "the vector of matched entries is an array of get_num_retained() entries (growth never fails); the rebuild of the table from the matched entries after the loop is not under contract"],
 }
-UNITS = [UNIT, UNIT2]
+
+PRELUDE3 = PRELUDE2 + r"""
+uint8_t lg_size_from_count(uint32_t n, double load_factor) __CPROVER_assigns() __CPROVER_ensures(1);   /* any value here; its arithmetic is C01 theta_table */
+#define REBUILD_THRESHOLD_C 0.9375
+uint32_t g_new_calls; uint8_t g_new_lg; uint64_t g_new_theta; bool g_new_empty;
+/* table_ = hash_table(lg_size, lg_size - 1, X1, 1, theta, seed, allocator, is_empty): a fresh table with no entries that keeps theta, seed and emptiness (ctor: C19 theta_lifecycle) */
+void table_new(struct theta_base* t, uint8_t lg_cur, uint8_t lg_nom, uint64_t theta, uint64_t seed, bool is_empty)
+  __CPROVER_assigns(t->num_entries_, t->lg_cur_size_, t->lg_nom_size_, g_new_calls) __CPROVER_ensures(t->num_entries_ == 0 && g_new_calls == __CPROVER_old(g_new_calls) + 1 && t->lg_cur_size_ == lg_cur);
+/* insert by contract: one more entry (a rebuild inside insert may lower theta and drop entries: not on this path, the table was sized for the count - assumed) */
+void insert_c(struct theta_base* t, EN* it, EN entry) __CPROVER_assigns(g_insert_calls, t->num_entries_)
+  __CPROVER_ensures(g_insert_calls == __CPROVER_old(g_insert_calls) + 1 && t->num_entries_ == __CPROVER_old(t->num_entries_) + 1);
+uint32_t g_ins0;
+"""
+LOOPC3 = ("for (uint32_t si_ = 0; si_ < sketch->n; si_++)\n"
+  "__CPROVER_assigns(si_, verif_exc, g_find_calls, g_last_find, g_insert_calls, self->table_.num_entries_, g_e_examined, g_e_matched)\n"
+  "__CPROVER_loop_invariant(si_ <= sketch->n && verif_exc == 0 && self->table_.num_entries_ == si_ && g_insert_calls == g_ins0 + si_)\n"
+  "__CPROVER_loop_invariant(g_e_examined == (si_ > g_e) && g_e_matched == g_e_examined && (g_e_examined ==> !g_found))\n"
+  "__CPROVER_decreases(sketch->n - si_)\n"
+  "{ const EN entry = sketch->e[si_]; if (si_ == g_e) g_e_examined = 1;")
+HEAD3 = {"raw": r"""
+#undef VERIF_RV
+#define VERIF_RV
+#undef VERIF_UNWIND
+#define VERIF_UNWIND
+/* the first-update branch of theta_intersection_base::update (copy of the incoming sketch into a fresh table), extracted as a region */
+void isect_first(struct theta_isect* self, const struct csk* sketch)
+__CPROVER_requires(__CPROVER_is_fresh(self, sizeof(*self)) && WF_SK(sketch) && g_e < sketch->n && g_key == sketch->e[g_e] && !g_e_examined && !g_e_matched && verif_exc == 0)
+__CPROVER_requires(g_find_calls < 1000 && g_insert_calls < 1000 && g_ins0 == g_insert_calls && g_new_calls == 0)
+__CPROVER_assigns(verif_exc, self->is_valid_, self->table_.num_entries_, self->table_.lg_cur_size_, self->table_.lg_nom_size_, g_new_calls, g_find_calls, g_last_find, g_insert_calls, g_e_examined, g_e_matched)
+/* the intersection becomes valid, gets one fresh table, and keeps theta, seed and emptiness */
+__CPROVER_ensures(self->is_valid_ && g_new_calls == 1 && self->table_.theta_ == __CPROVER_old(self->table_.theta_) && self->table_.seed_ == __CPROVER_old(self->table_.seed_))
+/* accepted: every entry of the input was inserted exactly once (an arbitrary entry g_e was inserted; inserts == entries == retained) */
+__CPROVER_ensures(verif_exc == 0 ==> (g_e_examined && g_e_matched && g_insert_calls == g_ins0 + sketch->n && self->table_.num_entries_ == sketch->n))
+/* an input that holds the key of g_e twice (the table already has it when it comes up) is refused */
+__CPROVER_ensures((g_found) ==> verif_exc != 0)
+{
+"""}
+REGION3 = {"name": "intersection_update_first_block", "file": IF, "members": MEMBERS,
+           "begin": r"is_valid_ = true;\s*const uint8_t lg_size = lg_size_from_count\(sketch\.get_num_retained\(\)", "include_begin": True, "end": r"\}\s*else\s*\{\s*const uint32_t max_matches",
+           "rules": S.SKACC + [(r"sketch\.get_num_retained\(\)", "sketch->n", 2),
+                               (r"theta_update_sketch_base<EN, EK, A>::REBUILD_THRESHOLD", "REBUILD_THRESHOLD_C", 1),
+                               (r"self->table_ = hash_table\(lg_size, lg_size - 1, resize_factor::X1, 1, self->table_\.theta_, self->table_\.seed_, self->table_\.allocator_, self->table_\.is_empty_\);",
+                                "table_new(&self->table_, lg_size, lg_size - 1, self->table_.theta_, self->table_.seed_, self->table_.is_empty_);", 1),
+                               (r"for \(auto&& entry: sketch\) \{", LOOPC3, 1),
+                               (r"auto result = self->table_\.find\(KEY\(entry\)\);", "find_result result = find_k(&self->table_, KEY(entry));", 1),
+                               (r"self->table_\.insert\(result\.first, conditional_forward<SS>\(entry\)\);", "insert_c(&self->table_, result.first, entry); if (si_ == g_e) g_e_matched = 1;", 1)]}
+UNIT3 = {
+    "id": "theta_intersection_first", "property": "C02",
+    "clause": "theta_intersection_base::update first-update branch for every input size and content: the intersection becomes valid with one fresh table that keeps theta, seed and emptiness; every entry of "
+              "the input is inserted exactly once; an input whose key is already in the table when it comes up (duplicate) is refused (the closing entry-count check cannot fail under the insert contract used here and is not exercised)",
+    "prelude": PRELUDE3, "parts": [HEAD3, REGION3, TAIL],
+    "harness": "void h_isect_first(void) { struct theta_isect* s = malloc(sizeof(*s)); const struct csk* k; verif_exc = 0; isect_first(s, k); VERIF_CANARY_POINT; }\n",
+    "jobs": [{"name": "isect_first", "entry": "h_isect_first", "enforce": "isect_first", "replace": ["find_k", "insert_c", "table_new", "lg_size_from_count"], "loops": True, "expect_loop_steps": 1, "timeout": 600}],
+    "assumptions": ["the block is extracted as a region of update() and wrapped in a function whose signature and contract are specification",
+                    "hash_table construction, find and insert enter by ghost contracts (fresh empty table; answer g_found for the key of the ghost entry; one more entry per insert - a rebuild inside insert is not on this path because the table is sized from the count: assumed, lg_size_from_count is C01)"],
+}
+UNITS = [UNIT, UNIT2, UNIT3]
